@@ -1,5 +1,6 @@
 import GcArena.Proofs.LogRun
 import GcArena.Proofs.PtrRefine
+import GcArena.Proofs.PtrRun
 /-!
 # C04 — Every value is destructed exactly once and all memory is returned
 
@@ -169,6 +170,58 @@ example :
     let p2 := (p1.sweepOne (fun i => i == 1)).1     -- 1 unlinked through sweep_prev
     PList.walk p2.next 4 p2.all = [2, 0] ∧ p2.sweep = some 0 ∧ p2.sweepPrev = some 2 := by decide
 
+/-! ### The pointer-level list along whole histories
+
+`PRunFrom a p ops p'` (Proofs/PtrRun.lean): a pointer-level state threaded through the history —
+`Context::link` at every allocation, the `Mark → Sweep` switch, `sweep_one` with the colour test of
+the context at that moment, the end of the sweep — driven by the same operations; for a collection
+call, by any sequence of micro-steps that takes the context where the call took it (the self-driven
+loop is one, `C01.do_collection_is_micro_steps`). -/
+
+/-- A pointer-level run coupled with the history `ops` of a fresh arena. -/
+def PRun (n : Nat) (ops : List Op) (p : PList) : Prop := PRunFrom (Arena.new n) PList.empty ops p
+
+/-- **Run-level refinement.**  For every history that leaves the arena alive a coupled
+    pointer-level run exists, and *every* coupled run ends in a state that represents the model's
+    lists: following `next` from `all` yields `pre ++ rest`, each object once; while sweeping, from
+    `sweep` yields `rest` and `sweep_prev` is the last object in front of the cursor; outside the
+    sweep both are `None` — and it is in sweep mode exactly when the model is in the sweep phase.
+    So `Rep` is not an assumption of the `list_surgery_*` theorems along real histories: it holds in
+    every state of every history. -/
+theorem rep_run (n : Nat) (ops : List Op) (halive : ((Arena.new n).run ops).alive = true) :
+    (∃ p, PRun n ops p) ∧
+    ∀ p, PRun n ops p →
+      Rep p ((Arena.new n).run ops).ctx.pre ((Arena.new n).run ops).ctx.rest ∧
+      (p.sweeping = true ↔ ((Arena.new n).run ops).ctx.phase = .sweep) := by
+  refine ⟨prun_exists ops _ _ (inv_init n) halive, fun p hp => ?_⟩
+  have r := rep_run_from ops _ _ _ (inv_init n) halive (repC_init n) hp
+  exact ⟨r.rep, r.mode⟩
+
+/-- In every state of every history, no `next` field of an object on the list points anywhere but
+    at an object on the list — which is allocated: never at a released block. -/
+theorem no_dangling_next_run (n : Nat) (ops : List Op) (halive : ((Arena.new n).run ops).alive = true)
+    (p : PList) (hp : PRun n ops p) (i : Nat) (hi : i ∈ ((Arena.new n).run ops).ctx.all) (t : Nat)
+    (ht : p.next i = some t) :
+    t ∈ ((Arena.new n).run ops).ctx.all ∧ ∃ o, ((Arena.new n).run ops).ctx.heap.get t = some o := by
+  have hrep := ((rep_run n ops halive).2 p hp).1
+  have hm := no_dangling_next hrep i hi t ht
+  exact ⟨hm, ((inv_run n ops halive).cinv.memAll t).mp hm⟩
+
+/-- In every state of every history, `DropAll` — dropping the arena there, in whatever phase —
+    walks exactly the allocated objects, each once: its visit list is duplicate-free and an id is
+    on it iff its block is allocated. -/
+theorem drop_visits_all_run (n : Nat) (ops : List Op) (halive : ((Arena.new n).run ops).alive = true)
+    (p : PList) (hp : PRun n ops p) :
+    let visited := PList.walk p.next (((Arena.new n).run ops).ctx.all.length + 1) p.all
+    visited = ((Arena.new n).run ops).ctx.all ∧ visited.Nodup ∧
+    ∀ i, i ∈ visited ↔ ∃ o, ((Arena.new n).run ops).ctx.heap.get i = some o := by
+  intro visited
+  have hrep := ((rep_run n ops halive).2 p hp).1
+  have hw : visited = ((Arena.new n).run ops).ctx.all := drop_visits_all hrep
+  have hinv := (inv_run n ops halive).cinv
+  refine ⟨hw, by rw [hw]; exact hinv.nodup, fun i => ?_⟩
+  rw [hw]; exact hinv.memAll i
+
 /-! ### Non-vacuity: dropping mid-sweep with a shell, a kept object and a condemned one -/
 
 def demo : List Op := [
@@ -181,5 +234,26 @@ def demo : List Op := [
 example : ((Arena.new 2).run demo).ctx.log =
     [.freed 0, .dropped 0, .freed 1, .dropped 1, .freed 2, .dropped 2] := by decide
 example : ((Arena.new 2).run demo).ctx.metrics.totalGcs = 0 := by decide
+
+/-- `rep_run` and its corollaries on `demo` stopped mid-sweep (one object passed by the cursor, two
+    still ahead, a fourth allocated meanwhile): a coupled pointer-level run exists, represents the
+    lists `pre = [3, 2]`, `rest = [1, 0]`, is in sweep mode, and `DropAll` would visit `[3, 2, 1, 0]`. -/
+example :
+    let ops := demo.take 10 ++ [.enter .mutate, .alloc true [none]]
+    ((Arena.new 2).run ops).ctx.pre = [3, 2] ∧ ((Arena.new 2).run ops).ctx.rest = [1, 0] ∧
+    ∃ p, PRun 2 ops p ∧ Rep p [3, 2] [1, 0] ∧ p.sweeping = true ∧
+      PList.walk p.next 5 p.all = [3, 2, 1, 0] := by
+  intro ops
+  have hal : ((Arena.new 2).run ops).alive = true := by decide
+  have hpre : ((Arena.new 2).run ops).ctx.pre = [3, 2] := by decide
+  have hrest : ((Arena.new 2).run ops).ctx.rest = [1, 0] := by decide
+  obtain ⟨⟨p, hp⟩, hall⟩ := rep_run 2 ops hal
+  obtain ⟨hrep, hmode⟩ := hall p hp
+  have hw := (drop_visits_all_run 2 ops hal p hp).1
+  rw [hpre, hrest] at hrep
+  refine ⟨hpre, hrest, p, hp, hrep, hmode.mpr (by decide), ?_⟩
+  have hall' : ((Arena.new 2).run ops).ctx.all = [3, 2, 1, 0] := by decide
+  rw [hall'] at hw
+  exact hw
 
 end GcArena.C04
